@@ -454,6 +454,34 @@ def gen_psfifo(rng):
     return sc
 
 
+def gen_fault(rng):
+    """a sampled input that is not a non-negative number (or a batch size that is not a non-negative integer)
+    at some position of some stream: the engine must raise instead of carrying on"""
+    sc = rng.choice([gen_core1, gen_tandem])(rng)
+    sc["syscap"] = INF
+    for nd in sc["nodes"]:
+        if nd["c"] == 0:
+            nd["c"] = 1
+        nd.pop("bk", None)
+    kind = rng.choice(["ia", "svc", "svc", "batch"])
+    bad = rng.choice(["!neg", "!nan", "!none", "!str"] + (["!frac"] if kind == "batch" else []))
+    k = rng.randint(0, 4)
+    n = 1
+    sc["arrS"][0][0] = sc["arrS"][0][0] or [1, 2]
+    if kind == "batch":
+        sc.setdefault("batchS", [[[1] if sc["arrS"][a][b] else [] for b in range(sc["K"])] for a in range(sc["N"])])
+        sc["batchS"][0][0] = sc["batchS"][0][0] or [1]
+        good = [rng.choice([b for b in sc["batchS"][0][0]]) for _ in range(k)]
+    elif kind == "ia":
+        good = [rng.choice(sc["arrS"][0][0]) for _ in range(k)]
+    else:
+        good = [rng.choice(sc["svcS"][0][0]) for _ in range(k)]
+    sc["script"] = {"%s/%d/1" % (kind, n): good + [bad] + [1] * 50}
+    sc["fault"] = 1
+    sc["T"] = 40
+    return sc
+
+
 def gen_stopcount(rng):
     base = rng.choice([gen_core1, gen_tandem, gen_prio, gen_renege, gen_cls])
     sc = base(rng)
@@ -488,6 +516,7 @@ def gen_stopcount(rng):
 FAMILIES = {
     "stopcount": gen_stopcount,
     "trk": gen_trk,
+    "fault": gen_fault,
     "ps": gen_ps,
     "psfifo": gen_psfifo,
     "exact": gen_exact,
